@@ -364,6 +364,13 @@ def case_sunrise(mon, y, m, d, lat, lon, h):
     # local transit: H = 0 between rise and set
     a, b = r.jde(), s.jde()
     ha, hb = sun_alt_ha(a, lat, lon)[1], sun_alt_ha(b, lat, lon)[1]
+    # near the polar circle at the solstice the day is almost 24 h long and
+    # both hour angles are near +-180: take the rising in (-270, 90] and the
+    # setting in [-90, 270) before comparing
+    if ha > 90.0:
+        ha -= 360.0
+    if hb < -90.0:
+        hb += 360.0
     ok = a < b and ha < 0.0 < hb and (b - a) < 1.0
     mon.check("sunrise.order", ok,
               dict(case, rise=a, set=b, hour_angle_at_rise=ha,
